@@ -9,6 +9,7 @@ from sim.core import Outcome, PRNG, HarnessError, digest_of
 
 CDEF = """
 int probe(int newval);
+int vprobe(int newval, ...);
 int via_cb(int (*cb)(int), int pre, int *seen_after);
 int via_xp(int pre, int *seen_after);
 extern "Python" int xp_body(int);
@@ -18,6 +19,7 @@ int get_gv_seen(void);
 SRC = r"""
 #include <errno.h>
 int probe(int newval) { int e = errno; errno = newval; return e; }
+int vprobe(int newval, ...) { int e = errno; errno = newval; return e; }
 int via_cb(int (*cb)(int), int pre, int *seen_after)
 { int r; errno = pre; r = cb(pre); *seen_after = errno; return r; }
 static int xp_body(int);
@@ -72,7 +74,8 @@ class Run(object):
         self.drv = None
         c = check
         self.probes = {'api': c.mod.lib.probe, 'addr': c.addr_probe, 'dlopen': c.dl_lib.probe,
-                       'abi': c.abi_lib.probe}
+                       'abi': c.abi_lib.probe,
+                       'variadic': lambda n: c.mod.lib.vprobe(n, c.iffi.cast('int', 5), c.iffi.cast('double', 1.5))}
         run = self
 
         def body_entry(pre):
@@ -177,7 +180,9 @@ class Run(object):
     def callcb(self, w, path, pre, body, raises, depth):
         self.cur.setdefault(w, []).append((body, raises, depth + 1, pre))
         seen = self.check.iffi.new('int *', -12345)
-        if path == 'cb_i':
+        if path == 'cb_addr':
+            r = self.check.addr_via_cb(self.cb_m, pre, seen)      # libffi call of a C function that calls back
+        elif path == 'cb_i':
             r = self.check.mod.lib.via_cb(self.cb_i, pre, seen)
         elif path == 'cb_m':
             r = self.check.mod.lib.via_cb(self.cb_m, pre, seen)
@@ -354,6 +359,7 @@ class C22(core.Check):
         self.dl_lib = self.iffi.dlopen(_verif_errno.__file__)
         self.abi_lib = _verif_errno_abi.ffi.dlopen(_verif_errno.__file__)
         self.addr_probe = self.mod.ffi.addressof(self.mod.lib, 'probe')
+        self.addr_via_cb = self.mod.ffi.addressof(self.mod.lib, 'via_cb')
         self.active = variant
         self.next_fid = 0
         self.gv_value = 7
@@ -371,10 +377,10 @@ class C22(core.Check):
             elif k == 'badset':
                 out.append(['set', rng.choice(BAD_VALUES), rng.below(2)])
             elif k == 'probe':
-                out.append(['probe', rng.choice(['api', 'addr', 'dlopen', 'abi', 'api_conv', 'addr_conv', 'dlopen_conv']),
+                out.append(['probe', rng.choice(['api', 'addr', 'dlopen', 'abi', 'variadic', 'api_conv', 'addr_conv', 'dlopen_conv']),
                             rng.choice(VALUES)])
             elif k == 'cb':
-                out.append(['cb', rng.choice(['cb_i', 'cb_m', 'cb_dl', 'xp']), rng.choice(VALUES[:10]),
+                out.append(['cb', rng.choice(['cb_i', 'cb_m', 'cb_dl', 'cb_addr', 'xp']), rng.choice(VALUES[:10]),
                             self.gen_steps(rng, rng.randint(0, 4), depth + 1), rng.chance(0.12)])
             elif k == 'gv':
                 out.append(['gv', rng.choice(['read', 'read', 'write', 'addr']), rng.randint(-100, 100)])
